@@ -65,6 +65,8 @@ structure OpInv (o : Op) : Prop where
   failedPost : o.pc = .failed → o.okPost = false
   doneMpi : o.pc = .done → o.okPost = true → o.mpiDone = true
   cbMpi : inCb o.pc = true → o.mpiDone = true
+  relMpi : o.rel ≠ 0 → o.okPost = true → o.mpiDone = true
+  relOnce : o.rel ≤ 1
 
 structure Inv (s : St) : Prop where
   ops : ∀ x, OpInv (s.op x)
@@ -75,7 +77,7 @@ structure Inv (s : St) : Prop where
   balance : s.nOn = s.nOff + b2n s.installed
 
 theorem opInv_default : OpInv {} := by
-  refine ⟨?_, ?_, ?_, ?_, ?_, ?_, ?_, ?_, ?_, ?_, ?_, ?_, ?_⟩ <;> simp [pre, early5, late, rsDone, b2n, inCb]
+  refine ⟨?_, ?_, ?_, ?_, ?_, ?_, ?_, ?_, ?_, ?_, ?_, ?_, ?_, ?_, ?_⟩ <;> simp [pre, early5, late, rsDone, b2n, inCb]
 
 theorem inv_init : Inv (init false) := by
   refine ⟨fun _ => opInv_default, ?_, ?_, ?_, ?_, ?_⟩ <;> simp [init, b2n]
@@ -96,13 +98,13 @@ macro "mpi_step" x:term : tactic => `(tactic| (
     have hle1 := le_sumTo (f := fun u => ifW (s.op u)) hxn
     have hle2 := le_sumTo (f := fun u => gacW (s.op u)) hxn
     have hx := h1 $x
-    obtain ⟨i1, i2, i3, i4, i5, i6, i7, i8, i9, i10, i11, i12, i13⟩ := hx
+    obtain ⟨i1, i2, i3, i4, i5, i6, i7, i8, i9, i10, i11, i12, i13, i14, i15⟩ := hx
     refine ⟨?_, ?_, ?_, ?_, ?_, ?_⟩ <;> dsimp only [setOp]
     · intro u
       by_cases hu : u = $x
       · subst hu
         simp only [upd_same]
-        refine ⟨?_, ?_, ?_, ?_, ?_, ?_, ?_, ?_, ?_, ?_, ?_, ?_, ?_⟩ <;> grind
+        refine ⟨?_, ?_, ?_, ?_, ?_, ?_, ?_, ?_, ?_, ?_, ?_, ?_, ?_, ?_, ?_⟩ <;> grind
       · simp only [upd_other _ _ _ _ hu]; exact h1 u
     · intro u hu
       have : u ≠ $x := by omega
@@ -130,6 +132,7 @@ theorem step_inv_cb (s s' : St) (a x e : Nat) (hi : Inv s) (h : step s (.cb a x 
 theorem step_inv_ret (s s' : St) (a x : Nat) (hi : Inv s) (h : step s (.ret a x) = some s') : Inv s' := by mpi_step x
 theorem step_inv_gacDec (s s' : St) (a x : Nat) (hi : Inv s) (h : step s (.gacDec a x) = some s') : Inv s' := by mpi_step x
 theorem step_inv_woke (s s' : St) (a x : Nat) (hi : Inv s) (h : step s (.woke a x) = some s') : Inv s' := by mpi_step x
+theorem step_inv_rel (s s' : St) (a x : Nat) (hi : Inv s) (h : step s (.rel a x) = some s') : Inv s' := by mpi_step x
 
 -- events that change no operation
 set_option hygiene false in
@@ -173,7 +176,7 @@ theorem step_inv_post (s s' : St) (a x m : Nat) (ok : Bool) (hi : Inv s)
     · subst hu
       simp only [upd_same]
       cases ok <;>
-        (refine ⟨?_, ?_, ?_, ?_, ?_, ?_, ?_, ?_, ?_, ?_, ?_, ?_, ?_⟩ <;> simp [pre, early5, late, rsDone, b2n, inCb])
+        (refine ⟨?_, ?_, ?_, ?_, ?_, ?_, ?_, ?_, ?_, ?_, ?_, ?_, ?_, ?_, ?_⟩ <;> simp [pre, early5, late, rsDone, b2n, inCb])
     · simp only [upd_other _ _ _ _ hu]; exact h1 u
   · intro u hu
     have : u ≠ s.n := by omega
@@ -206,6 +209,7 @@ theorem step_inv (s s' : St) (e : Ev) (hi : Inv s) (h : step s e = some s') : In
   | ret a x => exact step_inv_ret s s' a x hi h
   | gacDec a x => exact step_inv_gacDec s s' a x hi h
   | woke a x => exact step_inv_woke s s' a x hi h
+  | rel a x => exact step_inv_rel s s' a x hi h
   | pollOn a b => exact step_inv_pollOn s s' a b hi h
   | pollOff a => exact step_inv_pollOff s s' a hi h
   | stopRet a v => exact step_inv_stopRet s s' a v hi h
